@@ -81,6 +81,13 @@ class FieldArrayModel(FieldCompositeModel):
             f.name = self.name + "[" + str(i) + "]"
         
     def pre_randomize(self, visited):
+        # The sum and product terms are built per solve: drop what an
+        # earlier call (possibly a failed one) left behind
+        self.sum_expr = None
+        self.sum_expr_btor = None
+        self.product_expr = None
+        self.product_expr_btor = None
+
         # Set the size field for arrays that don't
         # have a random size
         if self.is_rand_sz:
